@@ -13,12 +13,11 @@ Section Valid.
   Variable sig_flag : N -> option N.
   Variable sighash_ecdsa : N -> option N.
   Variable inp_mall : bool -> bool.
-  Variable keep_unknown : bool.
 
-  Notation stepM := (step try_input interp_check desc_info sig_flag sighash_ecdsa inp_mall keep_unknown).
-  Notation runM := (run try_input interp_check desc_info sig_flag sighash_ecdsa inp_mall keep_unknown).
-  Notation finalize_inputM := (finalize_input try_input keep_unknown).
-  Notation specM := (finalize_input_spec try_input keep_unknown).
+  Notation stepM := (step try_input interp_check desc_info sig_flag sighash_ecdsa inp_mall).
+  Notation runM := (run try_input interp_check desc_info sig_flag sighash_ecdsa inp_mall).
+  Notation finalize_inputM := (finalize_input try_input).
+  Notation specM := (finalize_input_spec try_input).
 
   Definition istepT (st : psbt) (i : nat) (a a' : pinput) : Prop :=
     finals_of a' = finals_of a \/
@@ -76,7 +75,7 @@ Section Valid.
   Qed.
 
   Lemma fin_mut_loop_sstepT m idxs : forall st errs,
-    sstepT st (fst (fst (fin_mut_loop try_input keep_unknown m idxs st errs))).
+    sstepT st (fst (fst (fin_mut_loop try_input m idxs st errs))).
   Proof.
     induction idxs as [|i r IH]; intros st errs; simpl.
     - apply sstepT_refl.
@@ -86,7 +85,7 @@ Section Valid.
       + apply sstepT_refl.
   Qed.
 
-  Lemma fin_old_loop_sstepT m idxs : forall st, sstepT st (fst (fin_old_loop try_input keep_unknown m idxs st)).
+  Lemma fin_old_loop_sstepT m idxs : forall st, sstepT st (fst (fin_old_loop try_input m idxs st)).
   Proof.
     induction idxs as [|i r IH]; intros st; simpl.
     - apply sstepT_refl.
@@ -113,7 +112,7 @@ Section Valid.
       eapply sstepT_set; eauto. apply ireach_frame; auto. left; auto.
     - unfold finalize_mut.
       pose proof (fin_mut_loop_sstepT mall (seq 0 (length (p_inputs st))) st []) as H.
-      destruct (fin_mut_loop try_input keep_unknown mall (seq 0 (length (p_inputs st))) st []) as [[st' es] p].
+      destruct (fin_mut_loop try_input mall (seq 0 (length (p_inputs st))) st []) as [[st' es] p].
       simpl in H. destruct p; destruct es; exact H.
     - unfold finalize_old. destruct (sanity_check sig_flag sighash_ecdsa st); [apply sstepT_refl|].
       apply fin_old_loop_sstepT.
@@ -165,7 +164,7 @@ Section Valid.
   Theorem all_finals_valid : forall ops st, valid st -> valid (runM ops st).
   Proof.
     intros ops st V i a' Hn Hf.
-    destruct (utxos_invariant try_input interp_check desc_info sig_flag sighash_ecdsa inp_mall keep_unknown ops st)
+    destruct (utxos_invariant try_input interp_check desc_info sig_flag sighash_ecdsa inp_mall ops st)
       as (Tx & _ & U).
     rewrite Tx, U.
     destruct (finals_provenance ops st i a' Hn Hf) as (a & Ha & [[Fa E]|(Fa & st1 & m & s & w & T1 & U1 & T & Es & Ew)]).
@@ -183,7 +182,7 @@ Section Valid.
     intros ops st l V H.
     destruct (extract_spec interp_check sig_flag sighash_ecdsa _ _ H) as (-> & Hall & _ & _).
     pose proof (all_finals_valid ops st V) as V'.
-    destruct (utxos_invariant try_input interp_check desc_info sig_flag sighash_ecdsa inp_mall keep_unknown ops st)
+    destruct (utxos_invariant try_input interp_check desc_info sig_flag sighash_ecdsa inp_mall ops st)
       as (Tx & _ & U).
     split.
     - unfold finals. rewrite map_length. apply sreach_length. apply run_sreach.
